@@ -51,11 +51,38 @@ type tgScn struct {
 
 var c13Engine = "pango"
 
-func c13HTML(s *tgScn) string {
+// c13Vertical is the vertical border-spacing of a scenario under a variant (bit 0: two-value border-spacing whose
+// vertical component is 3px larger than the horizontal one).
+func c13Vertical(s *tgScn, variant int) int {
+	if variant&1 == 1 {
+		return s.Opts.Bs + 3
+	}
+	return s.Opts.Bs
+}
+
+// c13Head: variant bit 1 puts the first row in a <thead> (only when the table has another row and no cell of the first
+// row spans rows: row groups clamp rowspans, which the single-group specification does not model).
+func c13Head(s *tgScn, variant int) bool {
+	if variant&2 == 0 || len(s.Tab) < 2 || len(s.Tab[0]) == 0 {
+		return false
+	}
+	for _, c := range s.Tab[0] {
+		if c.Rs != 1 {
+			return false
+		}
+	}
+	return true
+}
+
+func c13HTML(s *tgScn, variant int) string {
 	var b strings.Builder
 	b.WriteString(`<html><head><style>@page{size:400px 1000px;margin:10px}html,body{display:block;margin:0;padding:0}` +
 		`body{font-family:weasyprint;font-size:8px;line-height:10px}td{padding:0;border:1px solid}caption{font-size:8px}</style></head><body>`)
 	st := fmt.Sprintf("border-spacing:%dpx;", s.Opts.Bs)
+	if variant&1 == 1 {
+		st = fmt.Sprintf("border-spacing:%dpx %dpx;", s.Opts.Bs, c13Vertical(s, variant))
+	}
+	head := c13Head(s, variant)
 	if s.Opts.Collapse {
 		st += "border-collapse:collapse;"
 	}
@@ -73,6 +100,12 @@ func c13HTML(s *tgScn) string {
 		b.WriteString(`<caption style="caption-side:bottom">cap</caption>`)
 	}
 	for ri, row := range s.Tab {
+		if head && ri == 0 {
+			b.WriteString("<thead>")
+		}
+		if head && ri == 1 {
+			b.WriteString("<tbody>")
+		}
 		if len(row) > 0 && row[0].Rh > 0 {
 			fmt.Fprintf(&b, `<tr style="height:%dpx">`, row[0].Rh)
 		} else {
@@ -92,6 +125,12 @@ func c13HTML(s *tgScn) string {
 			fmt.Fprintf(&b, `<td colspan="%d" rowspan="%d"%s>%s</td>`, c.Cs, c.Rs, w, strings.Join(words, " "))
 		}
 		b.WriteString("</tr>")
+		if head && ri == 0 {
+			b.WriteString("</thead>")
+		}
+	}
+	if head {
+		b.WriteString("</tbody>")
 	}
 	b.WriteString("</table></body></html>")
 	return b.String()
@@ -106,7 +145,8 @@ func c13Main(args []string) int {
 			out.Fatal("bad scenario: " + err.Error())
 			return
 		}
-		doc := c13HTML(&s)
+		variant := out.Cur % 4
+		doc := c13HTML(&s, variant)
 		pages, err := drv.Layout(doc, &drv.Opts{Engine: c13Engine})
 		if err != nil {
 			out.Fatal(err.Error())
@@ -215,9 +255,10 @@ func c13Main(args []string) int {
 		if s.Shared {
 			out.Count("shared-slot")
 		}
-		bs := 0
+		bs, bsv := 0, 0
 		if !s.Opts.Collapse {
 			bs = s.Opts.Bs * 64
+			bsv = c13Vertical(&s, variant) * 64
 		}
 		kind := "separate"
 		if s.Opts.Collapse {
@@ -227,6 +268,6 @@ func c13Main(args []string) int {
 			kind += "+fixed"
 		}
 		out.Emit(map[string]interface{}{"cols": cols, "rows": rows, "cells": cells, "tx": q64(float64(table.ContentBoxX())), "tw": q64(float64(table.Width.V())), "tbw": q64(float64(table.BorderWidth())),
-			"spec": s.Opts.Tw * 64, "bsh": bs, "bsv": bs, "collapse": s.Opts.Collapse, "fixed": s.Opts.Fixed, "shared": s.Shared, "kind": kind, "html": tshow})
+			"spec": s.Opts.Tw * 64, "bsh": bs, "bsv": bsv, "collapse": s.Opts.Collapse, "fixed": s.Opts.Fixed, "shared": s.Shared, "kind": kind, "html": tshow})
 	})
 }
